@@ -35,6 +35,8 @@ type Ctx struct {
 	Seed   uint64
 	Rng    *Rng
 	Corpus []Case // corpus cases of this property (run first)
+	Repo   string // repository under test
+	Root   string // /verif
 }
 
 func (c *Ctx) Thorough() bool { return c.Tier == "thorough" }
@@ -199,19 +201,25 @@ type KnownFinding struct {
 
 func LoadKnown(path, prop string) map[string]KnownFinding {
 	out := map[string]KnownFinding{}
-	b, err := os.ReadFile(path)
-	if err != nil {
-		return out
-	}
-	var f struct {
-		Findings []KnownFinding `json:"findings"`
-	}
-	if json.Unmarshal(b, &f) != nil {
-		return out
-	}
-	for _, k := range f.Findings {
-		if k.Property == prop && k.Status == "open" {
-			out[k.Class] = k
+	files := []string{path}
+	more, _ := filepath.Glob(filepath.Join(filepath.Dir(path), "known_findings.d", "*.json"))
+	sort.Strings(more)
+	files = append(files, more...)
+	for _, fn := range files {
+		b, err := os.ReadFile(fn)
+		if err != nil {
+			continue
+		}
+		var f struct {
+			Findings []KnownFinding `json:"findings"`
+		}
+		if json.Unmarshal(b, &f) != nil {
+			continue
+		}
+		for _, k := range f.Findings {
+			if k.Property == prop && k.Status == "open" {
+				out[k.Class] = k
+			}
 		}
 	}
 	return out
